@@ -635,6 +635,25 @@ def run(rep):
             mo_cmp.append(m_out)
         else:
             rep.bump("implementation-only (fractional)")
+    # the comparison functions of the library called by parameter names answer like the positional calls
+    idx = [k for k, mt in enumerate(meta) if mt[0] == "pool"]
+    rng.shuffle(idx)
+    idx = idx[: (300 if quick else 6000)]
+    nio = vlib.impl([lines[k].replace("cmp all ", "cmp named ", 1) for k in idx])
+    for k, n_out in zip(idx, nio):
+        r = parse9(io[k])
+        nm = n_out.split(",")
+        rep.bump("named-argument calls")
+        if r is None or len(nm) != 7:
+            continue
+        for what, got, want in (("std.equals(b=B, a=A)", nm[0], r[2]), ("std.equals(A, b=B)", nm[1], r[2]),
+                                ("std.__compare(v2=B, v1=A)", nm[2], r[7]), ("std.__compare(A, v2=B)", nm[3], r[7]),
+                                ("std.__compare_array(arr2=B, arr1=A)", nm[4], r[8]),
+                                ("std.primitiveEquals(b=B, a=A)", nm[5], nm[6])):
+            if got != want:
+                rep.violation("named:" + lines[k], "%s answers %s, the positional call answers %s" % (what, got, want),
+                              {"op": lines[k].replace("cmp all ", "cmp named ", 1), "impl": n_out, "positional": io[k]})
+                break
     for pi, vals in enumerate(pools + dpools):
         n = len(vals)
         if any(pres[pi].get((i, j)) is None for i in range(n) for j in range(n)):
@@ -669,6 +688,13 @@ def replay(r):
                 rc = 1
         return rc
     rp = r["replay"]
+    if (rp.get("op") or "").startswith("cmp named "):
+        named = vlib.impl([rp["op"]])[0]
+        pos = vlib.impl([rp["op"].replace("cmp named ", "cmp all ", 1)])[0]
+        print(rp["op"]); print("  named     :", named); print("  positional:", pos)
+        nm, r9 = named.split(","), parse9(pos)
+        ok = r9 is not None and len(nm) == 7 and (nm[0], nm[1], nm[2], nm[3], nm[4], nm[5]) == (r9[2], r9[2], r9[7], r9[7], r9[8], nm[6])
+        return 0 if ok else 1
     if "values" in rp:
         vs = rp["values"]
         lines = ["cmp all %s %s" % (x, y) for x in vs for y in vs]
